@@ -1,41 +1,59 @@
 (* C14 — concurrent JIT requests on a shared cache: for ANY number of requests and ANY
-   interleaving of their file-system steps (kills allowed, no fault in the window after the
-   marker was created), Jit.v's transition system satisfies: *)
+   interleaving of their file-system steps, with a failure at every step that can fail and a kill
+   anywhere, Jit.v's transition system satisfies the statements below.  JitGen.restore_on_fault and
+   JitGen.atomic_marker are read off jit.py on every run (the ready marker is published in one atomic
+   step after its content was written). *)
 From Coq Require Import List Arith.
 From FFCX Require Import Jit.
+From FFCXGen Require Import JitGen.
 
 Theorem C14_mutual_exclusion :
-  forall timeout restore es,
-    good_trace timeout restore (init) es ->
-    builders (s_procs (run timeout restore init es)) <= 1.
-Proof. exact mutual_exclusion. Qed.
+  forall timeout es,
+    builders (s_procs (run timeout restore_on_fault atomic_marker init es)) <= 1.
+Proof. intros. apply mutual_exclusion_any_trace. vm_compute. reflexivity. Qed.
 Print Assumptions C14_mutual_exclusion.
 
 Theorem C14_never_a_partial_module :
-  forall timeout restore es p,
-    good_trace timeout restore init es ->
-    In p (s_procs (run timeout restore init es)) -> p_pc p <> Done LoadedPartial.
-Proof. exact no_partial_load. Qed.
+  forall timeout es p,
+    In p (s_procs (run timeout restore_on_fault atomic_marker init es)) -> p_pc p <> Done LoadedPartial.
+Proof. intros timeout es p. apply no_partial_load_any_trace. vm_compute. reflexivity. Qed.
 Print Assumptions C14_never_a_partial_module.
 
 Theorem C14_marker_means_complete :
-  forall timeout restore es,
-    good_trace timeout restore init es ->
-    f_cached (s_fs (run timeout restore init es)) = true ->
-    f_c (s_fs (run timeout restore init es)) = true /\ f_so (s_fs (run timeout restore init es)) = SoComplete.
-Proof. exact marker_means_complete. Qed.
+  forall timeout es,
+    f_cached (s_fs (run timeout restore_on_fault atomic_marker init es)) = true ->
+    f_c (s_fs (run timeout restore_on_fault atomic_marker init es)) = true /\
+    f_so (s_fs (run timeout restore_on_fault atomic_marker init es)) = SoComplete.
+Proof. intros timeout es. apply marker_means_complete_any_trace. vm_compute. reflexivity. Qed.
 Print Assumptions C14_marker_means_complete.
 
+(* the same three statements for either shape of the marker step and of the handler restoration,
+   on traces without a fault in the window an empty-then-filled marker opens *)
+Theorem C14_safety_on_good_traces :
+  forall timeout restore atomic es,
+    good_trace timeout restore atomic init es ->
+    builders (s_procs (run timeout restore atomic init es)) <= 1 /\
+    (forall p, In p (s_procs (run timeout restore atomic init es)) -> p_pc p <> Done LoadedPartial) /\
+    (f_cached (s_fs (run timeout restore atomic init es)) = true ->
+     f_c (s_fs (run timeout restore atomic init es)) = true /\ f_so (s_fs (run timeout restore atomic init es)) = SoComplete).
+Proof.
+  intros timeout restore atomic es Hg. split; [|split].
+  - apply mutual_exclusion; exact Hg.
+  - intros p. apply no_partial_load; exact Hg.
+  - apply marker_means_complete; exact Hg.
+Qed.
+Print Assumptions C14_safety_on_good_traces.
+
 Theorem C14_exactly_one_compile :
-  forall timeout restore es, no_fault_trace es -> s_compiles (run timeout restore init es) <= 1.
+  forall timeout restore atomic es, no_fault_trace es -> s_compiles (run timeout restore atomic init es) <= 1.
 Proof. exact single_compile. Qed.
 Print Assumptions C14_exactly_one_compile.
 
 Theorem C14_reuse_without_recompiling :
-  forall timeout restore f sw,
+  forall timeout restore atomic f sw,
     0 < timeout -> f_c f = true -> f_cached f = true -> f_so f = SoComplete ->
-    step_proc timeout restore f {| p_pc := R2; p_swapped := sw |} Normal = Some (f, {| p_pc := W 0; p_swapped := sw |}, false) /\
-    step_proc timeout restore f {| p_pc := W 0; p_swapped := sw |} Normal = Some (f, {| p_pc := WL; p_swapped := sw |}, false) /\
-    step_proc timeout restore f {| p_pc := WL; p_swapped := sw |} Normal = Some (f, {| p_pc := Done Loaded; p_swapped := sw |}, false).
+    step_proc timeout restore atomic f {| p_pc := R2; p_swapped := sw |} Normal = Some (f, {| p_pc := W 0; p_swapped := sw |}, false) /\
+    step_proc timeout restore atomic f {| p_pc := W 0; p_swapped := sw |} Normal = Some (f, {| p_pc := WL; p_swapped := sw |}, false) /\
+    step_proc timeout restore atomic f {| p_pc := WL; p_swapped := sw |} Normal = Some (f, {| p_pc := Done Loaded; p_swapped := sw |}, false).
 Proof. exact reuse. Qed.
 Print Assumptions C14_reuse_without_recompiling.
